@@ -8,6 +8,8 @@
 //   rp  <pattern>                                          -> <isRelativePattern> <isAbsolute>
 //   jn  <a> <b>                                            -> hex          (Path::join)
 //   grp <abs> <n> <basepath>*n                             -> hex          (Path::getRelativePath)
+//   cli <n> <arg>*n                                        -> F | S <ni> <ignored>*ni <np> <pathname>*np
+//       the real CmdLineParser::parseFromArgs on argv = {"cppcheck", arg…}; its mIgnoredPaths / mPathNames afterwards
 //   ls  <casedir> <patharg> <nodepath> <base> <ni> <ign>*ni <ne> <extra>*ne <ntop> <tree>*ntop
 //                                                           -> E<err> <count> {<path>:<lang>}*
 //       tree: d <name> <k> <tree>*k | f <name>, created inside the fresh directory <casedir>, which becomes the cwd;
@@ -18,6 +20,10 @@
 #include "filelister.h"
 #include "filesettings.h"
 #include "standards.h"
+#include "cmdlineparser.h"
+#include "cmdlinelogger.h"
+#include "settings.h"
+#include "suppressions.h"
 
 #include <filesystem>
 #include <fstream>
@@ -30,6 +36,18 @@ struct Acc : public PathMatch {
     using PathMatch::PathIterator;
 };
 using PIter = Acc::PathIterator;
+
+struct QuietLogger : public CmdLineLogger {
+    void printMessage(const std::string &) override {}
+    void printError(const std::string &) override {}
+    void printRaw(const std::string &) override {}
+};
+struct ParserAcc : public CmdLineParser {
+    using CmdLineParser::CmdLineParser;
+    using CmdLineParser::parseFromArgs;
+    using CmdLineParser::mIgnoredPaths;
+    using CmdLineParser::mPathNames;
+};
 
 static PathMatch::Syntax syn(const std::string& s) { return s == "w" ? PathMatch::Syntax::windows : PathMatch::Syntax::unix; }
 static PathMatch::Filemode fm(const std::string& s) { return s == "d" ? PathMatch::Filemode::directory : PathMatch::Filemode::regular; }
@@ -98,6 +116,25 @@ int main()
                 std::vector<std::string> bps;
                 for (size_t k = 0; k < n && 3 + k < f.size(); ++k) bps.push_back(unhex(f[3 + k]));
                 out = hex(Path::getRelativePath(unhex(f[1]), bps));
+            } else if (f.size() >= 2 && f[0] == "cli") {
+                const size_t n = std::stoul(f[1]);
+                std::vector<std::string> args{"cppcheck"};
+                for (size_t k = 0; k < n && 2 + k < f.size(); ++k) args.push_back(unhex(f[2 + k]));
+                std::vector<const char*> argv;
+                for (const std::string& a : args) argv.push_back(a.c_str());
+                QuietLogger logger;
+                Settings settings;
+                Suppressions supprs;
+                ParserAcc parser(logger, settings, supprs);
+                const CmdLineParser::Result r = parser.parseFromArgs(static_cast<int>(argv.size()), argv.data());
+                if (r != CmdLineParser::Result::Success) {
+                    out = "F";
+                } else {
+                    out = "S " + std::to_string(parser.mIgnoredPaths.size());
+                    for (const std::string& p : parser.mIgnoredPaths) out += " " + hex(p);
+                    out += " " + std::to_string(parser.mPathNames.size());
+                    for (const std::string& p : parser.mPathNames) out += " " + hex(p);
+                }
             } else if (f.size() >= 8 && f[0] == "ls") {
                 const std::string casedir = unhex(f[1]);
                 const std::string patharg = unhex(f[2]);
